@@ -4,12 +4,14 @@ import Driver.Concurrency
 import Driver.Cqe
 import Driver.Facet
 import Driver.Field
+import Driver.FieldSort
 import Driver.Keyword
 import Driver.Lexicon
 import Driver.Persist
 import Driver.QParser
 import Driver.Query
 import Driver.Reads
+import Driver.ResultSet
 import Driver.Score
 import Driver.SetOps
 import Driver.Text
@@ -22,12 +24,14 @@ def sessions : List (String × Sess) := [
   ("cqe", CqeS.sess),
   ("facet", FacetS.sess),
   ("field", FieldS.sess),
+  ("fieldsort", FieldSortS.sess),
   ("keyword", KeywordS.sess),
   ("lexicon", LexiconS.sess),
   ("persist", PersistS.sess),
   ("qparser", QParserS.sess),
   ("query", QueryS.sess),
   ("reads", ReadsS.sess),
+  ("resultset", ResultSetS.sess),
   ("score", ScoreS.sess),
   ("setops", SetOpsS.sess),
   ("setopsnbest", SetOpsS.sessNBest),
